@@ -900,9 +900,17 @@ def call_builtin(I, f, args, kwargs, st, node=None):
             items = list(reversed(items))
         return V(tuple(items) if name == "tuple" else I.alloc(st, HList(items)), st)
     if name == "dict":
+        d = {}
         if args:
-            raise Unsupported("dict(...)", node)
-        return V(I.alloc(st, HDict(dict(kwargs))), st)
+            src = args[0]
+            if isinstance(src, Ref) and isinstance(I.hget(st, src), HDict):
+                d.update(I.hget(st, src).items)
+            else:
+                for pair in I.iterate(src, st, node):
+                    k, v = I.iterate(pair, st, node)
+                    d[I.hashable(k, node)] = v
+        d.update(kwargs)
+        return V(I.alloc(st, HDict(d)), st)
     if name == "set":
         return V(frozenset(I.iterate(args[0], st, node)) if args else frozenset(), st)
     if name == "range":
